@@ -1,6 +1,7 @@
 import DashLive.Props.C01
 import DashLive.Props.C02
 import DashLive.Props.C06
+import DashLive.Props.C09
 import DashLive.Props.GenTieTimeline
 import DashLive.Props.GenTieLiveIndex
 /-!
@@ -83,6 +84,42 @@ theorem C01_number_generated (convM : Nat → Int) (durs : List Nat) (ts sd sn r
   unfold serveNumberG
   rw [tie_liveIndexNumber, h]
   rfl
+
+theorem liveTimelineG_eq_entries (durs : List Nat) (refDur refTs ts : Nat) (w : Win) (fuel : Nat) :
+    liveTimelineG durs refDur refTs ts w fuel = liveEntries durs (refDuration refDur refTs ts) ts w fuel := by
+  rw [liveTimelineG_eq]; rfl
+
+/-- **C09 (agreement) about the translated code**: two live manifests of the same stream – any two
+clocks, any depths – agree on every segment they both list -/
+theorem C09_shared_entries_generated (durs : List Nat) (refDur refTs ts : Nat) (w₁ w₂ : Win) (f₁ f₂ : Nat)
+    (hn : 0 < durs.length) (hpos : AdvPositive durs (refDuration refDur refTs ts)) :
+    ∀ e₁ ∈ liveTimelineG durs refDur refTs ts w₁ f₁, ∀ e₂ ∈ liveTimelineG durs refDur refTs ts w₂ f₂,
+      e₁.1 = e₂.1 → e₁ = e₂ := by
+  intro e₁ h₁ e₂ h₂ heq
+  rw [liveTimelineG_eq_entries] at h₁ h₂
+  obtain ⟨i, hi, rfl⟩ := List.getElem_of_mem h₁
+  obtain ⟨j, hj, rfl⟩ := List.getElem_of_mem h₂
+  exact C09_shared_entries_equal durs _ ts w₁ w₂ f₁ f₂ hn hpos i j hi hj heq
+
+/-- **C09 (the window only moves forward) about the translated code**: when firstAvailableTime of
+the second request is not before that of the first, the first entry the later manifest lists does
+not start before the first entry of the earlier one -/
+theorem C09_window_start_generated (durs : List Nat) (refDur refTs ts : Nat) (w₁ w₂ : Win) (f₁ f₂ : Nat)
+    (hn : 0 < durs.length) (hR : 0 < refDuration refDur refTs ts)
+    (hpos : AdvPositive durs (refDuration refDur refTs ts))
+    (hF : w₁.E - w₁.tsbd * 1000000 ≤ w₂.E - w₂.tsbd * 1000000)
+    (h1 : 0 < (liveTimelineG durs refDur refTs ts w₁ f₁).length)
+    (h2 : 0 < (liveTimelineG durs refDur refTs ts w₂ f₂).length) :
+    ((liveTimelineG durs refDur refTs ts w₁ f₁)[0]'h1).1 ≤ ((liveTimelineG durs refDur refTs ts w₂ f₂)[0]'h2).1 := by
+  have e1 := liveTimelineG_eq durs refDur refTs ts w₁ f₁
+  have e2 := liveTimelineG_eq durs refDur refTs ts w₂ f₂
+  have g1 := (C02_gapless durs (refDuration refDur refTs ts) ts (tcFirst w₁ ts) w₁.tsbd f₁ hn hpos).2 0 (by rw [← e1]; exact h1)
+  have g2 := (C02_gapless durs (refDuration refDur refTs ts) ts (tcFirst w₂ ts) w₂.tsbd f₂ hn hpos).2 0 (by rw [← e2]; exact h2)
+  have hidx := C09_window_start_forward durs (refDuration refDur refTs ts) ts w₁ w₂ hR hn hF
+  have hmono := startG_le_of_le durs (refDuration refDur refTs ts) hn
+    (fun g => Int.le_of_lt (advPositive_durG' hn hpos g)) hidx
+  simp only [e1, e2, g1, g2, Nat.add_zero]
+  exact_mod_cast hmono
 
 /-- **C02 (`$Time$` resolves) about the translated `get_segment_index`** -/
 theorem C02_time_resolves_generated (durs : List Nat) (refDur refTs ts g : Nat) (hn : 0 < durs.length)
